@@ -321,6 +321,7 @@ def opGAME (args res : List String) : Findings := Id.run do
   let valid := Valid p0
   let mut g : Game := ⟨b, []⟩
   let mut sg : Spec.GameSt := Spec.GameSt.init p0
+  let mut specResult : Option GameResult := if valid then sg.result else none
   let mut i := 0
   for (a, out) in acts.zip outs do
     i := i + 1
@@ -345,10 +346,11 @@ def opGAME (args res : List String) : Findings := Id.run do
       | [acc, r, stm, n, h] =>
         let accepted := acc == "1"
         let before := sg
+        let beforeResult := specResult
         match act with
         | none =>
           if accepted != sg.claimable then
-            fs := fs.push (fO "draw" s!"action {i}: can_declare_draw={acc}, occurrences={sg.occurrences} clock={sg.clock} result={showResult sg.result}")
+            fs := fs.push (fO "draw" s!"action {i}: can_declare_draw={acc}, occurrences={sg.occurrences} clock={sg.clock} result={showResult specResult}")
         | some action =>
           let (sg', specAcc) := sg.step action
           match action with
@@ -362,15 +364,16 @@ def opGAME (args res : List String) : Findings := Id.run do
             if accepted ∧ !specAcc then fs := fs.push (fO "game" s!"action {i}: draw accepted without a standing offer (or after the end)")
             if accepted then sg := { sg with log := sg.log ++ [action] }
           | _ =>
-            if accepted ∧ before.result.isSome then fs := fs.push (fO "game" s!"action {i} ({a}) accepted after the game ended")
+            if accepted ∧ beforeResult.isSome then fs := fs.push (fO "game" s!"action {i} ({a}) accepted after the game ended")
             if accepted then sg := { sg with log := sg.log ++ [action] }
         -- observable state = start position advanced by precisely the accepted actions
-        if r != showResult sg.result then fs := fs.push (fO "game" s!"action {i} ({a}): result {r}, expected {showResult sg.result}")
+        if act.isSome ∧ accepted then specResult := sg.result
+        if r != showResult specResult then fs := fs.push (fO "game" s!"action {i} ({a}): result {r}, expected {showResult specResult}")
         if stm != showColor sg.pos.stm then fs := fs.push (fO "game" s!"action {i}: side_to_move {stm}")
         if n != toString sg.log.length then fs := fs.push (fO "game" s!"action {i}: log length {n}, expected {sg.log.length}")
         if h != showBB (sg.pos.hashOf T) then fs := fs.push (fO "game" s!"action {i}: current position differs from the replay of the accepted moves")
         -- a result, once there, never changes
-        if before.result.isSome ∧ r != showResult before.result then fs := fs.push (fO "game" s!"action {i}: result changed after the end")
+        if beforeResult.isSome ∧ r != showResult beforeResult then fs := fs.push (fO "game" s!"action {i}: result changed after the end")
       | _ => if out == "PANIC" then fs := fs.push (fO "game" s!"action {i} ({a}) panicked") else fs := fs.push ⟨'E', "parse", s!"out {out}"⟩
   return fs
 
